@@ -3,7 +3,7 @@ the reader's line regexes and cascade, the dump template, the validator's accept
 import ast
 import re
 
-from .. import rx, strlang
+from .. import rx, strlang, paths, normalize
 from ..core import AnalysisError, norm, walk_no_nested
 
 MOD = 'deb822'
@@ -174,52 +174,55 @@ class Model:
 
     # -- validator
     def validator(self):
-        """Deb822.validate_input -> dict(whole=[guards on the whole value], line=[guards per line],
-        splitter=..., skip_first=bool)"""
+        """Deb822.validate_input, helpers inlined, unfolded into paths with locals substituted away.  The
+        per-line loop (`for line in <value>.<splitter>()[k:]`) is summarised by the paths of its body."""
+        if getattr(self, '_validator', None) is not None:
+            return self._validator
         f = self.src.func('deb822:Deb822.validate_input')
         self.rep.saw_func(f)
         params = f.params()
         if len(params) < 3:
             raise AnalysisError('%s: unexpected signature' % f.site)
         val = params[2]
-        whole, line_guards, splitter, skip = [], [], None, None
-        ops = []
-        linevar = None
-        for st in f.node.body:
-            if isinstance(st, ast.Expr) and isinstance(st.value, ast.Constant):
-                continue
-            if isinstance(st, ast.If) and not st.orelse and len(st.body) == 1 and isinstance(st.body[0], ast.Raise):
-                whole.append((st.test, st.body[0]))
-                ops.append(('raise', st.test))
-                continue
-            if isinstance(st, ast.If) and not st.orelse and len(st.body) == 1 and isinstance(st.body[0], ast.Return) \
-                    and st.body[0].value is None:
-                ops.append(('return', st.test))
-                continue
-            if isinstance(st, ast.For) and isinstance(st.target, ast.Name) and splitter is None:
-                it = st.iter
-                skip = 0
-                if isinstance(it, ast.Subscript) and isinstance(it.slice, ast.Slice) and it.slice.upper is None and it.slice.step is None:
-                    lo = it.slice.lower
-                    skip = lo.value if isinstance(lo, ast.Constant) else None
-                    it = it.value
-                if not (isinstance(it, ast.Call) and isinstance(it.func, ast.Attribute) and norm(it.func.value) == val):
-                    raise AnalysisError('%s: loop does not iterate over the lines of the value' % f.site)
-                splitter = norm(it).replace(val, '$')
-                linevar = st.target.id
-                for b in st.body:
-                    if isinstance(b, ast.If) and not b.orelse and len(b.body) == 1 and isinstance(b.body[0], ast.Raise):
-                        line_guards.append((b.test, b.body[0]))
-                    elif isinstance(b, ast.Expr) and isinstance(b.value, ast.Constant):
-                        continue
-                    else:
-                        raise AnalysisError('%s: statement outside the guard vocabulary: %s' % (f.site, norm(b)[:50]))
-                ops.append(('lines', None))
-                continue
-            raise AnalysisError('%s: statement outside the guard vocabulary: %s' % (f.site, norm(st)[:50]))
-        if splitter is None:
+        fnode, _inl = normalize.inline_helpers(f)
+        folder = paths.Folder(paths.module_consts(f.module, f.cls or ''))
+        loops = []
+
+        def loop_handler(en, st, path):
+            if not isinstance(st, ast.For) or not isinstance(st.target, ast.Name) or st.orelse:
+                return None
+            it = paths.subst(st.iter, path.env)
+            skip = 0
+            if isinstance(it, ast.Subscript) and isinstance(it.slice, ast.Slice) and it.slice.upper is None and it.slice.step is None:
+                lo = it.slice.lower
+                skip = lo.value if isinstance(lo, ast.Constant) else 0 if lo is None else None
+                it = it.value
+            if not (isinstance(it, ast.Call) and isinstance(it.func, ast.Attribute) and norm(it.func.value) == val):
+                return None
+            linevar = st.target.id
+            sub = paths.Enumerator(folder)
+            p0 = paths.Path()
+            p0.env = {k: v for k, v in path.env.items() if k != linevar}
+            body = sub.run(st.body, [p0])
+            for bp in body:
+                if bp.outcome is None:
+                    bp.outcome = ('fall', None, None)
+                if bp.outcome[0] not in ('raise', 'fall', 'continue'):
+                    raise AnalysisError('%s: the per-line loop is left by %s' % (f.site, bp.outcome[0]))
+                if any(e[0] in ('store', 'loop') for e in bp.events):
+                    raise AnalysisError('%s: the per-line loop has side effects' % f.site)
+            info = dict(splitter=norm(it).replace(val, '$'), skip=skip, linevar=linevar, paths=body)
+            loops.append(info)
+            path.events.append(('lines', info, st))
+            return [path]
+        ps = paths.function_paths(fnode, folder, loop_handler)
+        if not loops:
             raise AnalysisError('%s: no per-line loop found' % f.site)
-        return dict(func=f, value=val, whole=whole, line=line_guards, splitter=splitter, skip=skip, linevar=linevar, ops=ops)
+        first = loops[0]
+        if any((l['splitter'], l['skip'], l['linevar']) != (first['splitter'], first['skip'], first['linevar']) for l in loops):
+            raise AnalysisError('%s: different per-line loops on different paths' % f.site)
+        self._validator = dict(func=f, value=val, splitter=first['splitter'], skip=first['skip'], linevar=first['linevar'], paths=ps, loops=loops)
+        return self._validator
 
     def line_pred_lang(self, test, var):
         """language of single lines for which `test` holds; adds `x[0].isspace()` to the vocabulary"""
@@ -257,15 +260,22 @@ class Model:
         if V['skip'] != 1:
             raise AnalysisError('validator does not skip exactly the first line')
         dom = self.domain(dom_extra)
-        # per-line acceptance: no guard fires
+        # per-line acceptance: no raising path of the loop body is taken
         noboundary = self.pat(r'[^\n\r]*').intersect(dom)
-        ok_line = noboundary
         index_error = None
-        for test, _ in V['line']:
-            indexes = any(isinstance(n, ast.Subscript) and norm(n.value) == V['linevar'] for n in ast.walk(test))
-            if indexes and ok_line.accepts('') and index_error is None:
-                index_error = norm(test)
-            ok_line = ok_line.minus(self.line_pred_lang(test, V['linevar']))
+        lv = V['linevar']
+        reject = noboundary.minus(noboundary)
+        for bp in V['loops'][0]['paths']:
+            cur = noboundary
+            for test, pol in bp.conds:
+                indexes = any(isinstance(n, ast.Subscript) and norm(n.value) == lv for n in ast.walk(test))
+                if indexes and cur.accepts('') and index_error is None:
+                    index_error = norm(test)
+                pl = self.line_pred_lang(test, lv)
+                cur = cur.intersect(pl if pol else pl.complement())
+            if bp.outcome[0] == 'raise':
+                reject = reject.union(cur)
+        ok_line = noboundary.minus(reject)
         # accepted = first (B line)* with every line after the first in ok_line, minus whole-value rejections.
         # boundaries of splitlines inside the domain: \n, \r, \r\n.  A trailing boundary does not open a line.
         first = noboundary
@@ -303,17 +313,18 @@ class Model:
                 return True      # text ended with a boundary: no further line
             return ok_line.acc[q]
         lines_ok = rx.from_function(alpha, [], (0, 0, False, True), step, accepting)
-        # sequential composition of the guards: `if P: raise` removes L(P) from what is still being
-        # examined, `if P: return` accepts it outright, the line loop filters
-        remaining = rx.sigma_star(alpha)
-        accepted = remaining.complement()
-        for kind, test in V['ops']:
-            if kind == 'lines':
-                remaining = remaining.intersect(lines_ok)
+        # a value is accepted when it takes a non-raising path: all literals of the path hold and, when the path
+        # runs the per-line loop, every continuation line is acceptable
+        anyv = rx.sigma_star(alpha)
+        accepted = anyv.complement()
+        for p_ in V['paths']:
+            if p_.outcome[0] == 'raise':
                 continue
-            pl = strlang.pred_lang(test, V['value'], self.alpha)
-            if kind == 'return':
-                accepted = accepted.union(remaining.intersect(pl))
-            remaining = remaining.minus(pl)
-        accepted = accepted.union(remaining)
+            lang = anyv
+            for test, pol in p_.conds:
+                pl = strlang.pred_lang(test, V['value'], self.alpha)
+                lang = lang.intersect(pl if pol else pl.complement())
+            if any(e[0] == 'lines' for e in p_.events):
+                lang = lang.intersect(lines_ok)
+            accepted = accepted.union(lang)
         return dict(V=V, accepted=accepted.intersect(dom), ok_line=ok_line, index_error=index_error)
